@@ -1,4 +1,4 @@
-(* GENEQ lemma=gen_CSRRSI_init_eq requires=gen_CSRRSI_init_rd,gen_CSRRSI_init_csr,gen_CSRRSI_init_uimm properties=C01,C02 *)
+(* GENEQ lemma=gen_CSRRSI_init_eq requires=gen_CSRRSI_init_rd,gen_CSRRSI_init_csr,gen_CSRRSI_init_uimm properties=C01 *)
 From ArchSimGenEq Require Import GenEqTac.
 From ArchSim Require Import Model.RV Model.RVSplit.
 From ArchSimGen Require Import GenRVTypes GenRV.
